@@ -607,10 +607,10 @@ class BaseBackend(CodeGen):
         t0 = func_args[0]
         y0 = func_args[1]
 
-        # use a safer way to generate time points (endpoint=False ensures times match Euler step indices)
+        # row k of the results is the state at time k*step (also if T is not an integer multiple of the step)
         step = dts if dts else dt
         n_time_points = round(T/step)
-        times = np.linspace(0.0, T, num=n_time_points, endpoint=False)
+        times = np.arange(n_time_points) * step
 
         # perform simulation
         results = self._solve(solver=solver, func=func, args=func_args[2:], T=T, dt=dt, dts=dts, y0=y0, t0=t0,
